@@ -200,7 +200,7 @@ def role(ctx, name):
     elif name == "jsx_text_fn":
         cands = fns_by_sig(ctx, lambda i: len(i) == 2 and i[1] == "&%sJSXText" % A, lambda o: o == "core::option::Option<%sExpr>" % A)
     elif name == "resolve_directive_fn":
-        cands = fns_by_sig(ctx, lambda i: len(i) == 3 and i[1] == "&str" and i[2] == "&%sJSXElement" % A, lambda o: o == A + "Expr")
+        cands = fns_by_sig(ctx, lambda i: len(i) == 3 and i[1] in ("&str", "&swc_atoms::Atom", "swc_atoms::Atom", "&alloc::string::String") and i[2] == "&%sJSXElement" % A, lambda o: o == A + "Expr")
     elif name == "iife_builder":
         cands = fns_by_sig(ctx, lambda i: len(i) == 2 and i[0].startswith("&mut VueJsxTransformVisitor") and i[1] == "alloc::vec::Vec<core::option::Option<%sExprOrSpread>>" % A, lambda o: o == "alloc::vec::Vec<core::option::Option<%sExprOrSpread>>" % A)
     elif name == "slot_ident_fn":
